@@ -19,7 +19,7 @@ from .usertruth import user_truth
 from ..astutil import src, site, calls_in, call_name, is_self_attr, is_super_call, kwarg, names_in, const_value
 from ..callgraph import self_closure, resolve_call, Ctx
 from ..cfg import CFG
-from ..dtable import explore, Sym
+from ..dtable import explore, Sym, term
 
 EXPLANATION = (
     "The element-adding mutators of list and set form a fixed, finite table (list: append, extend, insert, item "
@@ -108,7 +108,11 @@ def mc_cover(prog: Program) -> RuleResult:
             if mode == "each" and reach_hook:
                 ok = False
                 for loop in [n for n in walk_local(f.node) if isinstance(n, ast.For)]:
-                    if isinstance(loop.iter, ast.Name) and loop.iter.id == pname and isinstance(loop.target, ast.Name):
+                    derived = {pname}
+                    for x in walk_local(f.node):
+                        if isinstance(x, ast.Assign) and len(x.targets) == 1 and isinstance(x.targets[0], ast.Name) and pname in names_in(x.value):
+                            derived.add(x.targets[0].id)
+                    if derived & set(names_in(loop.iter)) and isinstance(loop.target, ast.Name):
                         for cc in calls_in(loop):
                             ts = resolve_call(prog, Ctx(f, c.qual), cc)
                             for t in ts:
@@ -381,6 +385,246 @@ def pd_single(prog: Program) -> RuleResult:
     return r
 
 
+
+# --------------------------------------------------------------------------------------- MC-ONCE
+BUILTIN_CONSUMERS = {"list", "set", "tuple", "sorted", "frozenset", "sum", "any", "all", "min", "max", "dict", "len_of_iter"}
+BULK_BUILTIN_METHODS = {"extend": 0, "update": 0, "__iadd__": 0, "__ior__": 0, "__setitem__": 1, "__init__": 0, "union": 0}
+RE_ITERABLE = {"list", "set", "tuple", "frozenset", "dict", "MonitoredContainer", "MonitoredList", "MonitoredSet"}
+
+
+def _consumes(prog: Program, ctx: Ctx, f: FuncInfo, pname: str, seen=None) -> bool:
+    """does `f` iterate the object its parameter `pname` is bound to?"""
+    seen = seen if seen is not None else set()
+    if (f.qual, pname) in seen:
+        return False
+    seen.add((f.qual, pname))
+    return any(True for _ in _consumption_sites(prog, ctx, f, pname, seen))
+
+
+def _consumption_sites(prog: Program, ctx: Ctx, f: FuncInfo, pname: str, seen=None):
+    """AST nodes of `f` at which the object named `pname` is iterated (once each)"""
+    seen = seen if seen is not None else {(f.qual, pname)}
+    for x in walk_local(f.node):
+        if isinstance(x, (ast.For, ast.comprehension)) and isinstance(x.iter, ast.Name) and x.iter.id == pname:
+            yield x.iter
+        elif isinstance(x, ast.YieldFrom) and isinstance(x.value, ast.Name) and x.value.id == pname:
+            yield x.value
+        elif isinstance(x, ast.Starred) and isinstance(x.value, ast.Name) and x.value.id == pname and isinstance(x.ctx, ast.Load):
+            yield x.value
+        elif isinstance(x, ast.Call):
+            for i, a in enumerate(x.args):
+                if not (isinstance(a, ast.Name) and a.id == pname):
+                    continue
+                if isinstance(x.func, ast.Name) and x.func.id in BUILTIN_CONSUMERS and x.func.id not in f.params:
+                    yield a
+                    continue
+                if isinstance(x.func, ast.Attribute) and BULK_BUILTIN_METHODS.get(x.func.attr) == i and any(
+                        isinstance(t, str) and t.startswith(("ext:builtins.list.", "ext:builtins.set.")) for t in resolve_call(prog, ctx, x)):
+                    yield a
+                    continue
+                for t in resolve_call(prog, ctx, x):
+                    if isinstance(t, FuncInfo):
+                        ps = t.params[1:] if (t.cls is not None and not t.is_staticmethod and isinstance(x.func, ast.Attribute)) else t.params
+                        if i < len(ps) and _consumes(prog, Ctx(t, t.cls.qual if t.cls is not None else None), t, ps[i], seen):
+                            yield a
+                            break
+            for k in x.keywords:
+                if isinstance(k.value, ast.Name) and k.value.id == pname and k.arg:
+                    for t in resolve_call(prog, ctx, x):
+                        if isinstance(t, FuncInfo) and k.arg in t.params and _consumes(prog, Ctx(t, t.cls.qual if t.cls is not None else None), t, k.arg, seen):
+                            yield k.value
+                            break
+
+
+def _is_container_test(t: ast.expr, pname: str) -> bool:
+    if isinstance(t, ast.Call) and isinstance(t.func, ast.Name) and t.func.id == "isinstance" and len(t.args) == 2 and isinstance(t.args[0], ast.Name) and t.args[0].id == pname:
+        ks = t.args[1].elts if isinstance(t.args[1], ast.Tuple) else [t.args[1]]
+        return all(src(k).split(".")[-1] in RE_ITERABLE for k in ks)
+    return False
+
+
+def mc_once(prog: Program) -> RuleResult:
+    r = RuleResult("MC-ONCE", "a bulk mutator iterates its argument once and never while storing into the same list", floor=3)
+    mc = prog.cls(MC)
+    hook = _hook(prog)
+    for c in [c for c in prog.subclasses(mc.qual, strict=True) if _builtin_base(prog, c)]:
+        kind = _builtin_base(prog, c)
+        for mname, (mode, argi) in ADDERS[kind].items():
+            f = prog.lookup(c.qual, mname)
+            if f is None or f.cls is None or f.cls.qual.startswith("ext:"):
+                continue
+            if mode != "each" and mname != "__setitem__":
+                continue
+            params = f.params[1:]
+            if len(params) <= argi:
+                continue
+            pname = params[argi]
+            ctx = Ctx(f, c.qual)
+            cfg = CFG(f.node)
+            key = f"{c.name}.{mname}"
+            # the graph restricted to the calls this obligation is about: for item assignment only slice indices carry an iterable
+            dropped_edges = set()
+            non_slice_exprs = set()
+            if mname == "__setitem__":
+                idx = params[0]
+                def is_slice_test(t):
+                    return (isinstance(t, ast.Call) and isinstance(t.func, ast.Name) and t.func.id == "isinstance" and len(t.args) == 2
+                            and src(t.args[0]) == idx and src(t.args[1]).split(".")[-1] == "slice")
+
+                tests = [n for n in cfg.nodes if n.kind == "test" and isinstance(n.stmt, ast.If) and is_slice_test(n.stmt.test)]
+                ifexps = [x for x in walk_local(f.node) if isinstance(x, ast.IfExp) and is_slice_test(x.test)]
+                r.check(bool(tests or ifexps), key + "#slice-distinguished", site(f), "", "slice indices are told apart from positions",
+                        "item assignment does not tell a slice from a position: `x.f[i:j] = values` hands the whole iterable to the on-add hook as if it were one element, "
+                        "which iterates it (a one-shot iterable is then empty when it is stored) and stores nothing element-wise")
+                if not (tests or ifexps):
+                    continue
+                for t in tests:
+                    if t.false_succ is not None:
+                        dropped_edges.add((t.id, t.false_succ))
+                for x in ifexps:
+                    non_slice_exprs.update(id(y) for y in ast.walk(x.orelse))
+                # on the slice side every element goes through the hook
+                per_elem = False
+                scopes = [x.body for x in ifexps]
+                for t in tests:
+                    region = _reach(cfg, t.true_succ, dropped_edges, set()) if t.true_succ is not None else set()
+                    for i in region:
+                        n = cfg.nodes[i]
+                        if n.stmt is not None:
+                            scopes += [n.stmt] if n.kind == "for" else list(cfg._own_parts(n))
+                for part in scopes:
+                    for x in ([part] if isinstance(part, ast.For) else ast.walk(part)):
+                        tv = it = body = None
+                        if isinstance(x, (ast.ListComp, ast.GeneratorExp, ast.SetComp)) and len(x.generators) == 1:
+                            tv, it, body = x.generators[0].target, x.generators[0].iter, [x.elt]
+                        if isinstance(x, ast.For):
+                            tv, it, body = x.target, x.iter, x.body
+                        if tv is None or not isinstance(tv, ast.Name) or pname not in names_in(it):
+                            continue
+                        for b in body:
+                            for cc in calls_in(b):
+                                for tg in resolve_call(prog, ctx, cc):
+                                    if isinstance(tg, FuncInfo) and (tg == hook or hook in self_closure(prog, c.qual, tg, False)[0]):
+                                        if cc.args and isinstance(cc.args[0], ast.Name) and cc.args[0].id == tv.id:
+                                            per_elem = True
+                r.check(per_elem, key + "#slice-each", site(f), "", "each element of an assigned slice goes through the on-add hook",
+                        "the elements of an assigned slice are not handed to the on-add hook one by one")
+            sites = [a for a in _consumption_sites(prog, ctx, f, pname) if id(a) not in non_slice_exprs]
+            ev: dict = {}
+            for a in sites:
+                i = cfg.node_of(a)
+                if i is not None:
+                    ev.setdefault(i, []).append(a)
+            kills = set()
+            for n in cfg.nodes:
+                if n.stmt is None or n.kind != "stmt":
+                    continue
+                if isinstance(n.stmt, (ast.Assign, ast.AnnAssign, ast.AugAssign)):
+                    tg = n.stmt.targets if isinstance(n.stmt, ast.Assign) else [n.stmt.target]
+                    if any(isinstance(t, ast.Name) and t.id == pname for t in tg):
+                        kills.add(n.id)
+            # edges after which the argument is known to be a re-iterable container
+            for n in cfg.nodes:
+                if n.kind == "test" and isinstance(n.stmt, ast.If) and _is_container_test(n.stmt.test, pname) and n.true_succ is not None:
+                    dropped_edges.add((n.id, n.true_succ))
+            live = _reach(cfg, cfg.entry, dropped_edges, kills)
+            bad = None
+            for i, occ in sorted(ev.items()):
+                if i not in live and not any(i in cfg.nodes[p].succ and p in live and p not in kills for p in range(len(cfg.nodes))):
+                    continue  # only reached with a materialised argument
+                if len(occ) > 1:
+                    bad = bad or (occ[0], occ[1])
+                if i in kills:
+                    continue
+                after = set()
+                for s_ in cfg.nodes[i].succ:
+                    if (i, s_) not in dropped_edges:
+                        after |= _reach(cfg, s_, dropped_edges, kills, include_kill_nodes=True)
+                for j, occ2 in sorted(ev.items()):
+                    if j == i and cfg.nodes[i].kind == "for" and not cfg.nodes[i].loops:
+                        continue  # the iterator of a loop is taken once; coming back to the header is the next round
+                    if j in after:
+                        bad = bad or (occ[0], occ2[0])
+            r.check(bad is None, key + "#argument-iterated-once", site(f, bad[1]) if bad else site(f), f"{pname}: {len(sites)} iteration site(s)",
+                    "no path iterates the raw argument twice",
+                    f"`{pname}` is iterated at line {bad[0].lineno if bad else 0} and again at line {bad[1].lineno if bad else 0} without being materialised in between: "
+                    f"a one-shot iterable (generator, iter(...), map/filter object) is empty the second time, so elements are recorded in the graph but missing from the field, or the reverse")
+            if kind == "list":
+                # a loop that stores into this list must not run over the raw argument: x.f.extend(x.f) would never end
+                bad2 = None
+                for n in cfg.nodes:
+                    if n.kind == "for" and isinstance(n.stmt.iter, ast.Name) and n.stmt.iter.id == pname and n.id in _reach(cfg, cfg.entry, dropped_edges, kills, include_kill_nodes=True):
+                        stores = False
+                        for cc in [cc for b in n.stmt.body for cc in calls_in(b)]:
+                            if is_super_call(cc) and cc.func.attr in ("append", "insert", "extend"):
+                                stores = True
+                            for tg in resolve_call(prog, ctx, cc):
+                                if isinstance(tg, FuncInfo) and any(e.startswith("ext:builtins.list.") and e.split(".")[-1] in ("append", "insert", "extend") for e in self_closure(prog, c.qual, tg, False)[1]):
+                                    stores = True
+                        if stores:
+                            bad2 = n
+                r.check(bad2 is None, key + "#no-loop-over-live-argument", site(f, bad2.stmt) if bad2 else site(f), "", "the storing loop runs over a snapshot",
+                        f"the loop over `{pname}` appends to this list on each round: when the argument is the list itself (x.f.extend(x.f), x.f[a:b] = x.f) it never ends")
+    return r
+
+
+def _reach(cfg: CFG, start, dropped_edges, kills, include_kill_nodes=False):
+    """nodes reachable from `start` without leaving a kill node (the kill nodes themselves are included on request)"""
+    seen = set()
+    stack = [start]
+    while stack:
+        n = stack.pop()
+        if n is None or n in seen:
+            continue
+        if n in kills:
+            if include_kill_nodes:
+                seen.add(n)
+            continue
+        seen.add(n)
+        for s_ in cfg.nodes[n].succ:
+            if (n, s_) not in dropped_edges:
+                stack.append(s_)
+    return seen
+
+
+# --------------------------------------------------------------------------------------- PD-FRESH
+def pd_fresh(prog: Program) -> RuleResult:
+    r = RuleResult("PD-FRESH", "the container stored for a collection field is the field's own, never the assigned object", floor=1)
+    f = _set_fn(prog)
+    pd = prog.cls(PD)
+    selfn, obj, val = f.params[0], f.params[1], f.params[2]
+    helpers = {g.qual for g in self_closure(prog, pd.qual, f, False)[0] if g.cls is not None and g.cls.qual == pd.qual and g is not f and g.name not in ("add_relation_to_the_graph",)}
+
+    def consistent(v):
+        for a, b in v.items():
+            # a freshly constructed container (constructor called with descriptor=...) is a monitored container
+            if a[0] == "isinstance" and a[2] == "MonitoredContainer" and "(descriptor=" in a[1] and not a[1].startswith("getattr(") and b is False:
+                return False
+        return True
+
+    res = explore(prog, f, [Sym(selfn), Sym(obj), Sym(val)], self_type=pd.qual, inline=lambda q: q in helpers, generic_loops=True, consistent=consistent)
+    n = 0
+    bad = None
+    for valuation, outcome, calls in res:
+        if valuation.get(("truth", f"{selfn}.is_iterable")) is not True:
+            continue
+        if valuation.get(("isinstance", val, "PropertyDescriptor")) is True:
+            continue
+        n += 1
+        for c in calls:
+            t = term(c)
+            if t.startswith(f"setattr({obj}, {selfn}.private_attr_name, ") and t[len(f"setattr({obj}, {selfn}.private_attr_name, "):-1] == val:
+                bad = bad or (valuation, t)
+    if n < 2:
+        raise AnalysisError("PD-FRESH: fewer than 2 collection-field paths through the setter")
+    r.check(bad is None, "PropertyDescriptor.__set__#own-container", site(f), f"{n} paths with a collection field",
+            "every path stores a container built for this field",
+            "on the path " + (", ".join(f"{k[1]} {k[0]} {k[2] if len(k) > 2 else ''}={v}" for k, v in bad[0].items()) if bad else "") +
+            f" the assigned object itself becomes the backing container ({bad[1] if bad else ''}): Company(members=other.members) shares one container between two owners, "
+            "so what is added through one field shows up in the other without its relations")
+    return r
+
+
 def run(prog: Program, tier: str) -> List[RuleResult]:
     alias = pd_alias(prog)
-    return [mc_cover(prog), mc_hook(prog), alias, pd_aug(prog, not alias.failed), pd_seq(prog), pd_single(prog), user_truth(prog, ["property_descriptor.property_descriptor", "property_descriptor.monitored_container", "property_descriptor.property_descriptor_relation"], 2)]
+    return [mc_cover(prog), mc_hook(prog), alias, pd_aug(prog, not alias.failed), pd_seq(prog), pd_single(prog), mc_once(prog), pd_fresh(prog), user_truth(prog, ["property_descriptor.property_descriptor", "property_descriptor.monitored_container", "property_descriptor.property_descriptor_relation"], 2)]
